@@ -146,7 +146,9 @@ def unit_twins(ctx):
                     ctx.violation("%s:crash:%s" % (name.split(":")[0], bad[0]), "child crashed during %s" % name, dict(desc, status=str(bad[1])))
                 if results:
                     ok = results[0]["ret"] == ERR_OK
-                    if ok != call.expect_ok:
+                    if ok and not call.expect_ok:
+                        ctx.classes["accepted-although-it-must-be-refused(C09's matter)"] += 1      # not a wipe question
+                    elif ok != call.expect_ok:
                         raise Harness("%s returned %d (expected %s)" % (name, results[0]["ret"], "ERR_OK" if call.expect_ok else "an error"))
                     nalloc = results[0]["info"]["nalloc"]
                     judge(ctx, call, results, 0, reported, desc)
